@@ -678,7 +678,7 @@ def construct (s : St) (kind : NsKind) (key : Option String) (items : List (List
 /-! ### one operation -/
 
 inductive Op where
-  | mk (el : Elem)
+  | mk (kind : Kind) (key : Option String) (sem : Option Nat) (cls vt : Nat)
   | construct (kind : NsKind) (key : Option String) (items : List (List Nat)) (cfg : ListCfg)
   | add (n j e : Nat)
   | remove (n j e : Nat)
@@ -707,7 +707,7 @@ def onSet (s : St) (n j : Nat) (f : Nat → St × Out) : St × Out :=
   | none => (s, .bad)
 
 def step (s : St) : Op → St × Out
-  | .mk el => (mkElem s { el with parent := none }, .ok)
+  | .mk kind key sem cls vt => (mkElem s ⟨kind, key.map Key.user, none, sem, cls, vt⟩, .ok)
   | .construct kind key items cfg => construct s kind key items cfg
   | .add n j e => onSet s n j (fun g => setAdd s g e)
   | .remove n j e => onSet s n j (fun g => setRemove s g e)
